@@ -2,12 +2,13 @@
 
 
 class LoopSpec(object):
-    def __init__(self, invariant, havoc=None, havoc_fields=None, scratch=None, name=None):
+    def __init__(self, invariant, havoc=None, havoc_fields=None, scratch=None, name=None, reveal=None):
         self.invariant = invariant          # fn(L, k) -> Bool ; L = view of locals (+ L.f = frame)
         self.havoc = dict(havoc or {})      # local name -> kind ('real','int','bool','optreal', callable(ctx))
         self.havoc_fields = list(havoc_fields or [])  # paths rooted at a local, e.g. "xAxis.current"
         self.scratch = list(scratch or [])
         self.name = name
+        self.reveal = reveal                # fn(L, k) -> list of definitional equations (ops.OpaqueFn.reveal)
 
 
 class Clause(object):
@@ -37,6 +38,8 @@ class Contract(object):
         self.inline_callees = set()
         self.variants = None         # list of (label, builder) pre-state variants
         self.canary_ok = True
+        self.reveal_ = []
+        self.caller_view_ = []
 
     # --- DSL ---------------------------------------------------------------
     def pre(self, builder):
@@ -63,8 +66,20 @@ class Contract(object):
         self.raises_.append((tname, when))
         return self
 
-    def loop(self, ordinal, invariant, havoc=None, havoc_fields=None, scratch=None):
-        self.loops[ordinal] = LoopSpec(invariant, havoc, havoc_fields, scratch)
+    def loop(self, ordinal, invariant, havoc=None, havoc_fields=None, scratch=None, reveal=None):
+        self.loops[ordinal] = LoopSpec(invariant, havoc, havoc_fields, scratch, reveal=reveal)
+        return self
+
+    def reveal(self, fn):
+        """fn(f) -> list of definitional equations (instances of opaque spec functions) available when the
+        post-conditions are checked."""
+        self.reveal_.append(fn)
+        return self
+
+    def caller_view(self, name, fn):
+        """Post-condition as seen by callers (over opaque spec functions).  Must follow from the proved
+        ensures clauses by unfolding definitions; listed in the evidence."""
+        self.caller_view_.append(Clause(name, fn))
         return self
 
     def result(self, kind):
